@@ -182,6 +182,15 @@ func c13Gen(t *rapid.T) c13Case {
 	c.Opts.FollowDir = rapid.Bool().Draw(t, "followdirs")
 	c.Opts.Excludes = rapid.SampledFrom([][]string{nil, nil, {"*.skip"}, {"ignored.txt"}, {"*.skip", "ignored.txt"}}).Draw(t, "excludes")
 	c.Opts.Strips = rapid.SampledFrom([][]string{nil, nil, {"sub/"}, {"sub"}, {"@ROOT@/"}, {"@ROOT@"}, {"a/", "b/"}, {"sub/deep/", "sub/"}, {"other/", "sub/"}, {"sub/", "deep/"}, {"sub/", "deep/", "er/"}, {"@ROOT@/", "sub/"}}).Draw(t, "strips")
+	if rapid.IntRange(0, 9).Draw(t, "twins") == 0 {
+		// two different files with the same content whose names collide once the prefixes are stripped
+		content := rapid.SampledFrom([]string{"", "same bytes\n"}).Draw(t, "twincontent")
+		c.Nodes = append(c.Nodes, hx.TNode{Path: "pkga", Kind: "dir"}, hx.TNode{Path: "pkgb", Kind: "dir"},
+			hx.TNode{Path: "pkga/__init__.py", Kind: "file", Content: content}, hx.TNode{Path: "pkgb/__init__.py", Kind: "file", Content: content})
+		c.Opts.Paths = []string{"."}
+		c.Opts.Strips = []string{"pkga/", "pkgb/"}
+		c.Opts.Excludes = nil
+	}
 	c.Mode = rapid.SampledFrom([]string{"record", "record", "record", "run", "startstop", "match"}).Draw(t, "mode")
 	if special {
 		c.Mode = "record"
